@@ -254,7 +254,8 @@ def run_module(args):
              dict(name='slice:two rational points (r = 13, r = 7), constants free', envs=[{'t': F(3, 2), 'y': F(3), 'z': F(4), 'x': F(12)}, {'t': F(5, 2), 'x': F(-2), 'y': F(6), 'z': F(3)}],
                   timeout=120 if tier == 'quick' else 600)]
     # prescreen needs exact evaluation: modules with irrational atoms evaluate in floats (tolerance 1e-7)
-    solve_ladder(obs, rungs, sampler=sampler_for(modname), rng=random.Random(seed), workers=4)
+    calib = {o.name: 2 for o in obs if 'Kretschmann' in o.name}       # measured: only the rational-point slice settles it
+    solve_ladder(obs, rungs, sampler=sampler_for(modname), rng=random.Random(seed), workers=4, calib=calib)
     out = []
     for o in obs:
         r = o.result
